@@ -113,6 +113,11 @@ def judge(ck, pid, progs, results):
             s = r["status"]
             if s == "rejected":
                 st["rejected"] += 1
+                if prog.get("must_accept"):
+                    # a program of a family that is valid by construction (and accepted by the unchanged compiler)
+                    ck.report(f"rejected/{population.src_hash(prog['src'])}",
+                              f"{r['name']}: a valid program is rejected: {r['detail'][:160]}",
+                              {"program": prog["src"], "prog_args": prog["args"], "verdict": r["detail"]})
                 continue
             if s == "unsupported":
                 st["unsupported"] += 1
